@@ -206,6 +206,9 @@ func (x *Exec) evalPhis(st *State, fr *Frame, from, to *ssa.BasicBlock) int {
 }
 
 func (x *Exec) enterBlock(st *State, fr *Frame, from, to *ssa.BasicBlock, ret retFn) {
+	if fr.depth == 0 && x.visitedBlocks != nil && !x.discover {
+		x.visitedBlocks[to] = true
+	}
 	if n := len(st.stops); n > 0 && from != nil {
 		sp := st.stops[n-1]
 		if sp.depth == len(st.frames)-1 && sp.block == to {
@@ -836,6 +839,9 @@ func (x *Exec) valEq(st *State, a, b *Val, t types.Type) *Term {
 	case kScalar:
 		if b.K == kNil {
 			return Eq(a.T, IntLit(0))
+		}
+		if b.K != kScalar || b.T == nil {
+			panic(specError{msg: fmt.Sprintf("comparison of the scalar %s with a non-scalar value (%s)", a.T.s, b)})
 		}
 		return Eq(a.T, b.T)
 	case kPtr:
